@@ -8,9 +8,10 @@ vars == <<fam, inp, lines, i, st>>
 Edited(d, f) == EditedDoc(d, f, Quick, 4)
 Cases == UNION {{<<AllDocs[k].fam, e, AllDocs[k].inter>> : e \in Edited(AllDocs[k].toks, AllDocs[k].fam)}
                 : k \in DocIdx("phylip") \cup DocIdx("fasta")}
-Init == \E c \in Cases :
+Init == \E c \in Cases : \E ign \in BOOLEAN :          \* reader option ignore_invalid_chars (PHYLIP)
+          /\ (c[1] = "fasta" => ~ign)
           /\ fam = c[1] /\ inp = c[2] /\ lines = TextLines(c[2]) /\ i = 1
-          /\ st = IF c[1] = "phylip" THEN PhStart(TextLines(c[2]), c[3]) ELSE FaStart
+          /\ st = IF c[1] = "phylip" THEN PhStart(TextLines(c[2]), c[3], ign) ELSE FaStart
 Step == /\ st.outcome = "none"
         /\ IF fam = "phylip"
            THEN IF i >= Len(lines) THEN st' = PhFinish(st, Shipped) /\ i' = i      \* line 1 is the description line
@@ -25,5 +26,5 @@ DimsConsistent == (fam = "phylip" /\ st.outcome = "Ok") =>
                      /\ Cardinality(DOMAIN st.rows) = st.ntax
                      /\ \A l \in DOMAIN st.rows : st.rows[l] = st.nchar
 Emit == (st.outcome # "none" /\ TLCGet("config").mode = "bfs") =>
-           PrintT("C20OUT " \o st.outcome \o " 0 " \o (IF st.outcome = "Ok" THEN "1" ELSE "0") \o " " \o ToString(inp))
+           (fam = "phylip" /\ st.ign) \/ PrintT("C20OUT " \o st.outcome \o " 0 " \o (IF st.outcome = "Ok" THEN "1" ELSE "0") \o " " \o ToString(inp))
 =============================================================================
